@@ -316,7 +316,7 @@ def parse_fns(toks, owner=None, trait=None, out=None):
 
 # what makes a function worth inlining: it performs (or reaches) one of the protocol's primitives
 PRIM_RE = re.compile(r"\.compare_exchange|\.load\(|\.store\(|\.swap\(|\.fetch_|futex_wait|(?<![\w.])dealloc\(|(?<![\w.])alloc(?:_zeroed)?\(|SET_TID_ADDRESS|"
-                     r"drop_in_place|(?<![\w.])mmap\(|(?<![\w.])munmap\(|__clone\(|Box::new\(|Box::from_raw\(|\.read\(\)|\.write\(|mem::forget|ManuallyDrop")
+                     r"\)=Some\(|drop_in_place|(?<![\w.])mmap\(|(?<![\w.])munmap\(|__clone\(|Box::new\(|Box::from_raw\(|\.read\(\)|\.write\(|mem::forget|ManuallyDrop")
 
 
 class File:
@@ -455,11 +455,19 @@ def expand(F, fn, toks=None, stack=(), prov=()):
             elif recv is not None:
                 recv = expand(F, fn, recv, stack, prov)
             sub = {}
-            for name, a in zip(g.params, args):
-                if name:
-                    sub[name] = a
             nprov = prov + (g.qual,)
             body = []
+            for name, a in zip(g.params, args):
+                if not name:
+                    continue
+                ca = compact(a)
+                m0 = re.match(r"[&*]*(\w+)\(\)", ca)
+                if re.fullmatch(r"[&*]*[\w:]+(\.\w+)*(\.\w+(::<[\w<>,: ]*>)?\(\))*( as [\w:*<> ]+)?", ca) or \
+                        (m0 and F.by_name.get(m0.group(1)) and re.fullmatch(r"[&*]*\w+\(\)(\.\w+(::<[\w<>,: ]*>)?\(\))*", ca)):
+                    sub[name] = a       # a name / field / accessor chain: substituted
+                else:
+                    # anything that does something is evaluated once, before the body, as the call does
+                    body += [T("id", "let", nprov), T("id", name, nprov), T("p", "=", nprov)] + list(a) + [T("p", ";", nprov)]
             for b in g.body:
                 if b.k == "id" and b.s == "self" and recv is not None:
                     body += paren(recv, nprov)
@@ -591,6 +599,10 @@ def parse_seq(toks):
             e = match_fwd(toks, i)
             if is_struct_brace(toks, i):
                 cur += toks[i:e + 1]
+            elif t.k == "blk":
+                # the body of an inlined function: a `return` inside it ends this block, not the enclosing function
+                flush()
+                nodes.append({"t": "inl", "body": parse_seq(toks[i + 1:e])})
             else:
                 # `let PAT = EXPR else { .. }` : the block runs when the pattern does not match
                 if cur and cur[-1].k == "id" and cur[-1].s == "else":
@@ -831,7 +843,7 @@ class Ana:
         for m in re.finditer(r"(?<![\w.])Ok\((JoinHandle\{|(\w+)\))", s):
             if m.group(2) is None or self.resolves_to(m.group(2), r"JoinHandle\{"):
                 add(m, "ok_handle")
-        for m in re.finditer(r"(?<![\w.])Err\(", s):
+        for m in re.finditer(r"(?<![\w.])Err\((?!_\))", s):
             add(m, "ret_err")
         for m in re.finditer(r"\.read\(\)", s):
             recv = s[expr_start(s, m.start()):m.start()]
@@ -850,7 +862,7 @@ class Ana:
                 add(m, "asm?")
         for m in re.finditer(r"process::exit\(|(?<![\w.])exit\(", s):
             add(m, "exit_process")
-        for m in re.finditer(r"\)\?", s):
+        for m in re.finditer(r"(?<=[\w)\]])\?(?![A-Za-z])", s):
             add(m, "try?")
         found.sort(key=lambda x: x[0])
         return [(n, x) for _, n, x in found]
@@ -877,8 +889,8 @@ class Ana:
             elif self.resolves_to(c, r"thread_stack_info\(\)|\.stack_info\b"):
                 r = ("is_thread", "is_main") if p.startswith("Some") else ("is_main", "is_thread") if p.startswith("None") else None
         else:
-            cas_err = r"\.compare_exchange(_weak)?\(.*\)\.is_err\(\)$"
-            cas_ok = r"\.compare_exchange(_weak)?\(.*\)\.is_ok\(\)$"
+            cas_err = r"\.compare_exchange(_weak)?\(.*\)\.is_err\(\)$|^matches!\(.*\.compare_exchange(_weak)?\(.*\),Err\(_\)\)$"
+            cas_ok = r"\.compare_exchange(_weak)?\(.*\)\.is_ok\(\)$|^matches!\(.*\.compare_exchange(_weak)?\(.*\),Ok\(_\)\)$"
             if self.resolves_to(c, cas_err):
                 r = ("cas_lost", "cas_won")
             elif self.resolves_to(c, cas_ok):
@@ -912,7 +924,7 @@ class Ana:
         if "futex_wait_fast(" not in raw:
             node["wl"] = None
             return None
-        info = node["wl"] = {"recognised": False, "iter": [], "cmp": None, "arg": None}
+        info = node["wl"] = {"recognised": False, "iter": [], "cmp": None, "arg": None, "exit": "break"}
         body = node["body"]
         if node["kind"] == "while":
             body = [{"t": "if", "cond": node["cond"], "cseq": node["cseq"], "pat": None, "then": list(node["body"]) + [{"t": "cont"}], "else": [{"t": "brk", "expr": []}]}]
@@ -935,7 +947,11 @@ class Ana:
             return ("word_eq", "word_ne") if op == "==" else ("word_ne", "word_eq")
         w = Walk(self, word_tags)
         r = w.walk(body + [{"t": "cont"}], [[]])
-        paths = [p + ["break"] for p in r["brk"]] + [p + ["continue"] for p in r["cont"]] + [p + ["return"] for p in r["ret"]] + [p + ["fallthrough"] for p in r["live"]]
+        # leaving the loop by the `return` of the (inlined) helper the loop lives in is a `break` as far as the loop goes;
+        # where the path continues afterwards is the path enumeration's business (`exit`)
+        paths = ([p + ["break"] for p in r["brk"] + r["inl"]] + [p + ["continue"] for p in r["cont"]] + [p + ["return"] for p in r["ret"]] +
+                 [p + ["fallthrough"] for p in r["live"]])
+        info["exit"] = "return" if r["inl"] and not r["brk"] else "mixed?" if r["inl"] else "break"
         # the loads are bound before they are compared (`let w = x.load(..)`) or sit inside the condition: either way
         # they are the first operation of the path
         info["iter"] = sorted(set(tuple(p) for p in paths))
@@ -943,14 +959,15 @@ class Ana:
         info["cmp"] = sorted(set(cmp_toks))
         info["arg"] = sorted(set(args))
         good = {("load", "word_ne", "break"), ("load", "word_eq", "futex_wait", "continue")}
-        info["recognised"] = set(info["iter"]) == good and len(info["cmp"]) == 1 and info["cmp"] == info["arg"]
+        info["recognised"] = set(info["iter"]) == good and len(info["cmp"]) == 1 and info["cmp"] == info["arg"] and info["exit"] != "mixed?"
         self.loops.append(info)
         return info
 
     def paths(self, tagger=None):
         w = Walk(self, tagger)
         r = w.walk(self.seq, [[]])
-        out = [p + ["return"] for p in r["ret"]] + [p + ["end"] for p in r["live"]] + [p + ["break?"] for p in r["brk"]] + [p + ["continue?"] for p in r["cont"]]
+        out = ([p + ["return"] for p in r["ret"]] + [p + ["end"] for p in r["live"] + r["inl"]] + [p + ["break?"] for p in r["brk"]] +
+               [p + ["continue?"] for p in r["cont"]])
         uniq = []
         for p in out:
             if p not in uniq:
@@ -958,16 +975,23 @@ class Ana:
         return uniq
 
 
+KEYS = ("ret", "brk", "cont", "inl")
+
+
 class Walk:
+    """path enumeration.  A result is {live: paths that fall through, ret: ended by `return` / `?`, brk / cont: left by
+    `break` / `continue` (up to the enclosing loop), inl: ended by a `return` inside an inlined function body (up to the
+    end of that body)}"""
+
     def __init__(self, ana, tagger=None):
         self.a, self.tagger, self.seen = ana, tagger, []
 
     def is_pure(self, seq):
         r = Walk(self.a, self.tagger).walk(seq or [], [[]])
-        return r == {"live": [[]], "ret": [], "brk": [], "cont": []}
+        return r["live"] == [[]] and not any(r[k] for k in KEYS)
 
     def walk(self, seq, live):
-        res = {"live": [list(p) for p in live], "ret": [], "brk": [], "cont": []}
+        res = {"live": [list(p) for p in live], "ret": [], "brk": [], "cont": [], "inl": []}
         for n in seq:
             if not res["live"]:
                 break
@@ -979,11 +1003,15 @@ class Walk:
                         self.seen.append((name, extra))
                     if name == "try?":
                         res["ret"] += [p + ["try_return"] for p in res["live"]]
+                    elif name in ("exit_process", "asm_unmap_exit"):
+                        # never returns: the path ends here
+                        res["ret"] += [p + [name] for p in res["live"]]
+                        res["live"] = []
+                        break
                     else:
                         res["live"] = [p + [name] for p in res["live"]]
             elif t == "if":
-                r = self.walk(n["cseq"], res["live"])
-                self.merge(res, r)
+                self.merge(res, self.walk(n["cseq"], res["live"]))
                 tags = (self.tagger(n["cond"], n["pat"]) if self.tagger else None) or self.a.tags_of(n["cond"], n["pat"])
                 if tags is None and self.is_pure(n["then"]) and self.is_pure(n["else"]):
                     continue
@@ -994,8 +1022,7 @@ class Walk:
                 for x in (a, b):
                     self.merge(res, x, keep_live=True)
             elif t == "match":
-                r = self.walk(n["sseq"], res["live"])
-                self.merge(res, r)
+                self.merge(res, self.walk(n["sseq"], res["live"]))
                 if all(self.is_pure(b) for _, b in n["arms"]):
                     continue
                 base, res["live"] = res["live"], []
@@ -1003,29 +1030,35 @@ class Walk:
                     tags = (self.tagger(n["scrut"], pat) if self.tagger else None) or self.a.tags_of(n["scrut"], pat)
                     x = self.walk(body, [p + [tags[0] if tags else "arm?"] for p in base])
                     self.merge(res, x, keep_live=True)
+            elif t == "inl":
+                x = self.walk(n["body"], res["live"])
+                res["live"] = x["live"] + x["inl"]
+                for k in ("ret", "brk", "cont"):
+                    res[k] += x[k]
             elif t == "loop":
                 info = self.a.wait_loop(n) if self.tagger is None else None
                 if info is not None:
-                    # the sites of the loop are recorded by the loop's own walk; as one operation of the path
-                    res["live"] = [p + ["wait" if info["recognised"] else "wait?"] for p in res["live"]]
+                    # the exit wait, as one operation of the path (its sites are recorded by the loop's own analysis)
+                    out = [p + ["wait" if info["recognised"] else "wait?"] for p in res["live"]]
+                    if info.get("exit") == "return":
+                        res["inl"] += out
+                        res["live"] = []
+                    else:
+                        res["live"] = out
                     continue
                 base = [p + ["loop?"] for p in res["live"]]
                 if n["kind"] == "while":
                     c = self.walk(n["cseq"], base)
-                    res["ret"] += c["ret"]
+                    for k in ("ret", "inl"):
+                        res[k] += c[k]
                     base = c["live"]
                 x = self.walk(n["body"], base)
-                res["ret"] += x["ret"]
+                for k in ("ret", "inl"):
+                    res[k] += x[k]
                 res["live"] = x["brk"] + x["live"] + x["cont"] + (base if n["kind"] != "loop" else [])
-            elif t in ("ret", "inlret"):
-                r = self.walk(n["expr"], res["live"])
-                self.merge(res, r)
-                res["ret"] += [p + (["inl_return?"] if t == "inlret" else []) for p in res["live"]]
-                res["live"] = []
-            elif t == "brk":
-                r = self.walk(n["expr"], res["live"])
-                self.merge(res, r)
-                res["brk"] += res["live"]
+            elif t in ("ret", "inlret", "brk"):
+                self.merge(res, self.walk(n["expr"], res["live"]))
+                res[{"ret": "ret", "inlret": "inl", "brk": "brk"}[t]] += res["live"]
                 res["live"] = []
             elif t == "cont":
                 res["cont"] += res["live"]
@@ -1041,9 +1074,8 @@ class Walk:
             res["live"] += r["live"]
         else:
             res["live"] = r["live"]
-        for k in ("ret", "brk", "cont"):
+        for k in KEYS:
             res[k] += r[k]
-        return None
 
 
 # ---- small string helpers on compact text
@@ -1213,9 +1245,9 @@ def p_recheck(loops):
 
 # shape: the explicit partial order between operations that the model's step sequence relies on
 
-def s_spawn(ps, sites):
+def s_spawn(ps):
     setup = ("tsm_alloc", "init_flag_false", "init_word", "init_slot_none", "box_closure", "mmap", "tls_box")
-    return (not sites and any(has("clone", p) for p in ps)
+    return (any(has("clone", p) for p in ps)
             and all(once("tsm_alloc", p) and all(once(x, p) and bef("tsm_alloc", x, p) for x in ("init_flag_false", "init_word", "init_slot_none"))
                     and not has("tsm_alloc_zeroed", p) and not has("init_flag?", p) for p in ps)
             and all(all(once(x, p) and bef(x, "clone", p) for x in setup) for p in ps if has("clone", p))
@@ -1243,10 +1275,9 @@ def s_panic(ps):
             and all(not any(has(x, p) for x in ("cas", "tsm_dealloc", "tls_dealloc", "set_tid_0", "asm_unmap_exit")) for p in main))
 
 
-def s_join(ps, sites):
+def s_join(ps):
     return (bool(ps) and all(understood(p) and once("wait", p) and once("read_slot", p) and once("tsm_dealloc", p) and bef("wait", "read_slot", p)
-                             and bef("read_slot", "tsm_dealloc", p) and has("forget", p) and not has("cas", p) and not has("set_tid_0", p) for p in ps)
-            and all(s["loc"] == "futex" and s["op"] in ("load", "futex_wait_fast") for s in sites))
+                             and bef("read_slot", "tsm_dealloc", p) and has("forget", p) and not has("cas", p) and not has("set_tid_0", p) for p in ps))
 
 
 def s_drop(ps):
@@ -1375,7 +1406,9 @@ def analyse(repo=None):
     mmap_ps = [p for p in sp if has("mmap", p)]
     derived = {
         "checkClone": bool(p_check_clone(sp)) if clone_ps and all(understood(p) for p in clone_ps) else None,
-        "mmapCleanup": bool(p_mmap_cleanup(sp)) if mmap_ps and all(has("mmap_err", p) or has("mmap_ok", p) or has("try_return", p) for p in mmap_ps)
+        # `mmap(..)?`: the error leaves spawn at once, nothing is released — understood, and not a clean-up
+        "mmapCleanup": False if any(has("try_return", p) and has("mmap", p) and not has("mmap_err", p) and not has("mmap_ok", p) for p in sp) else
+                       bool(p_mmap_cleanup(sp)) if mmap_ps and all(has("mmap_err", p) or has("mmap_ok", p) or has("try_return", p) for p in mmap_ps)
                        and all(understood(p) for p in mmap_ps if not has("mmap_ok", p)) else None,
         "setTidRet": bool(p_set_tid(ep)) if ep and all(understood(p) for p in ep) else None,
         "dropValT": bool(p_drop_val_t(ep)) if ep and all(understood(p) for p in ep) else None,
@@ -1459,11 +1492,38 @@ def emit(table, resolved=None, path=None):
     return out
 
 
+def isacq(o):
+    return o in ("acquire", "acqrel", "seqcst")
+
+
+def isrel(o):
+    return o in ("release", "acqrel", "seqcst")
+
+
+def good_cas(x):
+    o = (x["ords"] + ["relaxed"])[0]
+    return x["op"] == "compare_exchange" and x["loc"] == "sync" and x["vals"] == ["false", "true"] and isacq(o) and isrel(o)
+
+
+def good_wait_site(x):
+    return x["loc"] == "futex" and ((x["op"] == "load" and isacq((x["ords"] + ["relaxed"])[0])) or x["op"] == "futex_wait_fast")
+
+
+def cas_ok(l):
+    return len([x for x in l if good_cas(x)]) == 1 and all(good_cas(x) or good_wait_site(x) for x in l)
+
+
 def shapes(table):
-    """the shape obligations, evaluated here as they are in Lean (for the evidence; Lean decides)"""
+    """the obligations of `genShapeOk`, evaluated here as they are in Lean (for the evidence; Lean decides)"""
     P, S = table["paths"], table["sites"]
-    return {"spawn": s_spawn(P["spawn"], S["hspawn"]), "epilogue": s_epilogue(P["epilogue"]), "panic": s_panic(P["panic"]),
-            "join": s_join(P["join"], S["join"]), "drop": s_drop(P["drop"])}
+
+    def when(ps, f, *more):
+        return "not understood: model replay only" if not all(understood(p) for p in ps) else bool(f(ps, *more))
+    return {"sites": bool(cas_ok(S["drop"]) and cas_ok(S["spawn"]) and len(S["spawn"]) == 1 and cas_ok(S["panic"]) and len(S["panic"]) == 1
+                          and all(good_wait_site(x) for x in S["join"]) and any(x["op"] == "load" for x in S["join"]) and not S["hspawn"]),
+            "spawn": when(P["spawn"], s_spawn), "epilogue": when(P["epilogue"], s_epilogue), "panic": when(P["panic"], s_panic),
+            "join": when(P["join"], s_join), "drop": when(P["drop"], s_drop),
+            "clone_asm": table["clone_asm"] == [56, 11, 60], "wait_key_shared": table["wait_private"] is False}
 
 
 def generate(repo=None, resolved=None):
